@@ -29,6 +29,7 @@ partial def vOfJson (j : Json) : Except String V :=
     else if let .ok (.arr #[.str n, .str k]) := j.getObjVal? "fn" then .ok (.fn n k)
     else if let .ok s := j.getObjValAs? String "ty" then .ok (.ty s)
     else if let .ok n := j.getObjValAs? Nat "vars" then .ok (.vars n)
+    else if let .ok (_ : Nat) := j.getObjValAs? Nat "gen" then .ok (.stream [])
     else .error s!"bad V {j.compress}"
   | _ => .error s!"bad V {j.compress}"
 where
@@ -53,6 +54,7 @@ partial def vToJson : V → Json
   | .fn n k => Json.mkObj [("fn", Json.arr #[Json.str n, Json.str k])]
   | .ty s => Json.mkObj [("ty", s)]
   | .vars n => Json.mkObj [("vars", n)]
+  | .stream _ => Json.mkObj [("gen", (0 : Nat))]   -- an unconsumed generator: opaque on both sides
 
 def arr (j : Json) (k : String) : Except String (List Json) :=
   match j.getObjVal? k with
@@ -162,6 +164,7 @@ partial def specOfJson (j : Json) : Except String Spec := do
   | "not" => return .not (← sub "c")
   | "switch" => return .switch (← pairs "cases") (← optSub "dflt")
   | "probe" => return .probe (← j.getObjValAs? Nat "id")
+  | "iter" => return .iter (← sub "s") ((j.getObjValAs? Bool "map").toOption.getD false)
   | _ => throw s!"unknown spec kind {k}"
 
 /-! ### Python's part, executable -/
@@ -206,7 +209,7 @@ def typeName : V → String
   | .skip | .stop => "Sentinel" | .list _ => "list" | .tuple _ => "tuple"
   | .dict false _ => "dict" | .dict true _ => "OrderedDict"
   | .set false _ => "set" | .set true _ => "frozenset"
-  | .fn .. => "function" | .ty _ => "type" | .vars _ => "ScopeVars"
+  | .fn .. => "function" | .ty _ => "type" | .vars _ => "ScopeVars" | .stream _ => "generator"
 
 def isinstance (v : V) (n : String) : Bool :=
   n == "object" || typeName v == n ||
@@ -218,7 +221,9 @@ def isinstance (v : V) (n : String) : Bool :=
 def e (c : String) : Err := ⟨c⟩
 
 def iterate : V → Except Err (List V)
-  | .list xs | .tuple xs | .set _ xs => .ok xs
+  | .list xs | .tuple xs | .stream xs => .ok xs
+  -- the iteration order of a set with several elements is CPython's business: outside the modelled domain
+  | .set _ xs => if xs.length ≤ 1 then .ok xs else .error (e "Unsupported")
   | .dict _ es => .ok (es.map (·.1))
   | _ => .error (e "UnregisteredTarget")
 
@@ -339,7 +344,7 @@ def applyFn (kind : String) (args : List V) (kwargs : List (String × V)) : Exce
 /-- Python's own iteration protocol (`list(x)`): strings iterate over characters -/
 def pyIter : V → Except Err (List V)
   | .str s => .ok (s.toList.map (fun c => V.str (String.singleton c)))
-  | v => (iterate v).mapError (fun _ => e "TypeError")
+  | v => (iterate v).mapError (fun er => if er.cls == "Unsupported" then er else e "TypeError")
 
 def applyTy (n : String) (v : V) : Except Err V :=
   match n with
